@@ -119,3 +119,22 @@ PROPS["C12"] = {
                  R("TestPropListenerDatagram", 40000, shards=2, timeout=2400), R("TestPropAMQPBodies", 20000, shards=2, timeout=2400),
                  F("FuzzPlainChunking", "120s")],
 }
+
+PROPS["C13"] = {
+    "pkg": "c13", "level": "exploration",
+    "rule": ("rapid draws 1-4 frames of 0-8 items each: names (ASCII, tagged, metrics2.0, non-ASCII), tuple or list containers at both levels, "
+             "timestamps/values as int (1/2/4-byte, >2^31, >2^63, negative, python2 long), float, str/unicode, and structurally invalid items "
+             "(arity 1/3, name not a string, data not a sequence, None/dict scalars). Every frame is serialised by CPython itself (python3 "
+             "protocols 0-4; python 2.7 pickle and cPickle protocols 0-2 and further python3 versions when present on the image), framed with "
+             "a 4-byte BE length, and fed to input.NewPickle(d).Handle through a reader cut at every byte / random cuts / fixed sizes. Oracle "
+             "(differential): the dispatcher events must equal, item for item, what input.NewPlain produces for the equivalent text lines (int "
+             "and str fields verbatim, float values with six decimals, float timestamps within <1s), each invalid item exactly one IncNumInvalid. "
+             "malformed_frame: wrong length / truncation / bad prefix / garbage after 0-3 good frames: no panic, earlier frames fully processed, "
+             "nothing invented. Non-trivial: >=2 items mixing >=2 scalar encodings, in >=2 frames or cut inside. Distinct = hash(interpreter, frames, bytes)."),
+    "level_text": "Differential property testing against the plain-text path on frames produced by real CPython picklers (several versions), thousands of generated lists; holds on all generated.",
+    "level_note": "Python 3 bytes names, bools and NaN/Inf floats are outside the generated domain; whether a malformed frame yields an error value or nil is recorded, not asserted (the connection ends either way).",
+    "technique": "property-based testing (rapid): differential oracle (pickle path vs plain path) on CPython-generated pickles; segmentation metamorphic",
+    "assumptions": ["CPython's pickle module defines the wire format", "python interpreters present on the image"],
+    "quick": [R("TestPropPickleVsPlain", 3000), R("TestPropMalformedFrame", 1500)],
+    "thorough": [R("TestPropPickleVsPlain", 40000, shards=12, timeout=2400), R("TestPropMalformedFrame", 20000, shards=4, timeout=2400)],
+}
